@@ -1,3 +1,3 @@
 import Hive.Base.Proto
-import Hive.Model.BatchWriter
-def main : IO Unit := Hive.Proto.run ({} : Hive.Spec.BatchWriter.Mon) Hive.BatchWriter.stepLine
+import Hive.Model.BatchWriterErr
+def main : IO Unit := Hive.Proto.run ({} : Hive.Spec.BatchWriter.Mon) Hive.BatchWriter.stepLineE
